@@ -182,29 +182,57 @@ def _report(ck, ev, label, details):
         ck.violation("rejected:%s:%s" % (label, e), "observation rejected by the contract: %s" % json.dumps(ev)[:600], rp)
 
 
+def _group(ev):
+    """Records that would be described by the same violation key (used only to avoid re-validating
+    what TLC has already rejected once)."""
+    e = ev.get("e")
+    if e in ("Enforce", "EnforceOff"):
+        return None                       # one record per setting: never repeated
+    what, i, _ = _first_bad(ev)
+    if i < 0:
+        return None
+    if e == "Sample":
+        return ("Sample", ev["sp"], ev["smp"], ev["mode"], what)
+    if e == "Valid":
+        return ("Valid", ev.get("src"), ev["vs"], what)
+    return None
+
+
 def _validate(ck, path, label, details, max_rejections=12):
     """TLC validation of a logged trace; after a rejection validation resumes behind the rejected
-    line so that every distinct finding of one run is reported.  Returns the number of rejections."""
+    line so that every distinct finding of one run is reported (further records of the same sampler
+    and failure kind as an already rejected one are set aside).  Returns the number of rejections."""
     events = vlib.read_ndjson(path)
-    start, rejected = 0, 0
-    while start < len(events):
+    total = len(events)
+    rejected, set_aside, first = 0, 0, True
+    while events:
         sub = path
-        if start:
+        if not first:
             sub = path + ".rest"
-            vlib.write_ndjson(sub, [{"e": "Reset"}] + events[start:])
+            vlib.write_ndjson(sub, [{"e": "Reset"}] + events)
         acc, prefix, res = validate_trace("base/SamplerTrace", sub, timeout=1800)
-        ck.add("trace_events_validated", (len(events) - start) if acc else prefix)
+        accepted = (len(events) if acc else prefix) - (0 if first or acc else 1)
+        ck.add("trace_events_validated", max(accepted, 0))
         if acc:
             break
-        bad = start + prefix - (1 if start else 0)
+        bad = prefix - (0 if first else 1)
         if bad >= len(events):
             raise FrameworkError("trace %s rejected beyond its end" % label)
         rejected += 1
-        _report(ck, events[bad], label, details)
-        start = bad + 1
+        ev = events[bad]
+        _report(ck, ev, label, details)
+        g = _group(ev)
+        rest = events[bad + 1:]
+        if g is not None:
+            keep = [x for x in rest if _group(x) != g]
+            set_aside += len(rest) - len(keep)
+            rest = keep
+        events, first = rest, False
         if rejected >= max_rejections:
             log("[C08] %s: stopped after %d rejected records" % (label, rejected))
             break
+    if set_aside:
+        ck.add("trace_events_set_aside_after_rejection", set_aside)
     return rejected
 
 
